@@ -202,6 +202,8 @@ class BlockSCAD(BasePenalty):
     def prox_1feat(self, value, stepsize, j):
         """Compute the proximal operator of BlockSCAD."""
         norm_value = norm(value)
+        if norm_value == 0.:
+            return np.zeros_like(value)
         prox = prox_SCAD(norm_value, stepsize, self.alpha, self.gamma)
         return prox * value / norm_value
 
